@@ -55,14 +55,14 @@ func (node *tagIncludeNode) Execute(ctx *ExecutionContext, writer TemplateWriter
 			}
 			return err2.(*Error)
 		}
-		err2 = includedTpl.ExecuteWriter(includeCtx, writer)
+		err2 = includedTpl.executeNested(ctx, includeCtx, writer)
 		if err2 != nil {
 			return err2.(*Error)
 		}
 		return nil
 	}
 	// Template is already parsed with static filename
-	err := node.tpl.ExecuteWriter(includeCtx, writer)
+	err := node.tpl.executeNested(ctx, includeCtx, writer)
 	if err != nil {
 		return err.(*Error)
 	}
@@ -92,7 +92,7 @@ func tagIncludeParser(doc *Parser, start *Token, arguments *Parser) (INodeTag, *
 
 		// Parse the parent
 		includeNode.filename = includedFilename
-		includedTpl, err := doc.template.set.FromFile(includedFilename)
+		includedTpl, err := doc.template.set.fromFileNested(doc.template, includedFilename)
 		if err != nil {
 			// if this is ReadFile error, and "if_exists" token presents we should create and empty node
 			if err.(*Error).Sender == "fromfile" && ifExists {
